@@ -7,7 +7,8 @@
 (*    directives and the new root operation types; nothing else changes.       *)
 (*  Unordered(S): the schema with every ordered collection read as a set -     *)
 (*    sorting a schema may change order only.                                  *)
-(* E: [ext: Seq([name, fields, interfaces, members, values, inputFields]),     *)
+(* E: [ext: Seq([name, fields, interfaces, members, values, inputFields,      *)
+(*               specifiedBy]),                                                 *)
 (*     newTypes: Seq(type), newDirectives: Seq(directive), query, mutation,    *)
 (*     subscription: name or ""]                                               *)
 EXTENDS SchemaValid
@@ -18,7 +19,9 @@ ApplyAll(t, exts) ==
   ELSE LET x == Head(exts) IN
        ApplyAll(IF x.name = t.name
                 THEN [t EXCEPT !.fields = @ \o x.fields, !.interfaces = @ \o x.interfaces, !.members = @ \o x.members,
-                               !.values = @ \o x.values, !.inputFields = @ \o x.inputFields]
+                               !.values = @ \o x.values, !.inputFields = @ \o x.inputFields,
+                               \* a scalar extension that carries @specifiedBy sets the url; the others leave it as it is
+                               !.specifiedBy = IF x.specifiedBy.p THEN x.specifiedBy ELSE @]
                 ELSE t, Tail(exts))
 
 ApplyExt(S, E) ==
